@@ -16,6 +16,7 @@ import (
 	"os"
 	"sort"
 	"strings"
+	"time"
 
 	"golang.org/x/tools/go/ssa"
 )
@@ -32,6 +33,7 @@ type Extractor struct {
 	BenignWriteTags map[string]bool
 	caseBudget      int
 	caseAssume      []Assumption // standing assumptions of EquivByCasesUnder
+	caseDeadline    time.Time    // wall-clock bound of one EquivByCases call
 	inSign          bool
 	inUnit          bool
 	ctxDepth        int
